@@ -163,6 +163,21 @@ func runC04(c *fw.Case) {
 			before := w.Size()
 			var off uint64
 			var err error
+			if op == 1 && direct && r.Intn(3) == 0 {
+				// the direct-I/O writer refuses WriteSync (documented): the refused call must not leave the record behind
+				_, e := w.WriteSync(rec)
+				prog = append(prog, fmt.Sprintf("WriteSync(%s)->refused", fw.Hex(rec)))
+				c.Obs("refused_sync_writes_on_direct_io", 1)
+				if e == nil {
+					c.Violate("recordio/direct-io/sync-write-accepted", "%s: WriteSync on a direct-I/O writer returned nil\nprog: %v", cfg, prog)
+					return
+				}
+				if w.Size() != before {
+					c.Violate("recordio/direct-io/refused-sync-write-moved-size", "%s: Size()=%d after a refused WriteSync, was %d\nprog: %v", cfg, w.Size(), before, prog)
+					return
+				}
+				continue
+			}
 			if sync {
 				off, err = w.WriteSync(rec)
 				prog = append(prog, fmt.Sprintf("WriteSync(%s)", fw.Hex(rec)))
